@@ -131,8 +131,33 @@ def tradability(chk):
 
 WHERE_SIGNAL = "signal row at now, entries equal to True"
 
+SELECT_WHERE_REF = '''
+def ref(self, target):
+    if self.signal_name is None:
+        signal = self.signal
+    else:
+        signal = target.get_data(self.signal_name)
+    if target.now in signal.index:
+        sig = signal.loc[target.now]
+        selected = sig[sig == True].index
+        if not self.include_no_data:
+            universe = target.universe.loc[target.now, list(selected)].dropna()
+            if self.include_negative:
+                selected = list(universe.index)
+            else:
+                selected = list(universe[universe > 0].index)
+        target.temp["selected"] = list(selected)
+    return True
+'''
+
 
 def select_where(chk):
+    from .algo_equiv import check_equiv
+    ok_eq = check_equiv(chk, "C14.R1", ALGOS, "SelectWhere", "__call__", SELECT_WHERE_REF, "signal-selection",
+                        "SelectWhere: on a date the signal has, exactly the tickers whose signal equals True (a missing signal is not True), tradable ones unless told otherwise; "
+                        "on any other date the selection is left alone", limit=14)
+    if ok_eq:
+        return  # equivalent to the reference, however the row is looked up
     S = chk.summary(ALGOS, "SelectWhere", "__call__", host="SelectWhere")
     host = "SelectWhere.__call__"
     fi = S.fn
